@@ -126,24 +126,50 @@ fn check(id: &str, tier: &str) {
         }));
         for f in &st.found {
             // re-run from the recorded choice sequence: must reproduce, trace is rendered here
-            let mut c1 = Chooser::from_indices(&f.choices);
+            // Every answer of the environment is owned by the explorer, so the same choice sequence
+            // gives the same execution - unless the code under test itself behaves differently on
+            // identical input (e.g. it depends on the per-instance seed of a hash map). The violation
+            // was observed on the real code either way; in that case it is reported with a note and
+            // with the trace of a re-execution that shows it again, if one of eight does.
             tokio_stream::verif_seam::set(Some(world::seam));
-            let (r1, t1) = run_scn(&sp.scn, &mut c1, true);
-            let mut c2 = Chooser::from_indices(&f.choices);
-            let (_, t2) = run_scn(&sp.scn, &mut c2, true);
-            if t1 != t2 || c1.diverged.is_some() {
-                machinery_failure(&format!("violation {} in {} does not replay deterministically", f.v.clause, st.name));
+            let mut shown: Option<Vec<String>> = None;
+            let mut all_same = true;
+            let mut first_trace: Option<Vec<String>> = None;
+            for run in 0..8 {
+                let mut c = Chooser::from_indices(&f.choices);
+                let (r, t) = run_scn(&sp.scn, &mut c, true);
+                let reproduces = c.diverged.is_none() && r.violations.iter().any(|v| v.prop == prop && v.clause == f.v.clause);
+                match &first_trace {
+                    None => first_trace = Some(t.clone()),
+                    Some(ft) => all_same &= *ft == t,
+                }
+                all_same &= c.diverged.is_none();
+                if reproduces && shown.is_none() {
+                    shown = Some(t);
+                }
+                if run >= 1 && all_same && shown.is_some() {
+                    // deterministic and reproduced: two identical runs are enough
+                    break;
+                }
             }
-            if !r1.violations.iter().any(|v| v.prop == prop && v.clause == f.v.clause) {
+            if all_same && shown.is_none() {
                 machinery_failure(&format!("violation {} in {} did not reproduce on re-execution", f.v.clause, st.name));
             }
+            let note = if all_same {
+                String::new()
+            } else if shown.is_some() {
+                " [NOTE: re-executions of this choice sequence differ from one another: the code's behaviour is not a function of the environment's answers alone (e.g. it depends on a per-instance hash seed); the trace is from a re-execution that shows the violation]".to_string()
+            } else {
+                " [NOTE: observed during exploration; eight re-executions of the same choice sequence did not show it again and differ from one another: the code's behaviour is not a function of the environment's answers alone]".to_string()
+            };
+            let t1 = shown.or(first_trace).unwrap_or_default();
             let mut case = sp.scn.describe();
             case["bound"] = json!(sp.bound);
             rep.violation(Violation {
                 property: id.to_string(),
                 clause: f.v.clause.clone(),
                 fingerprint: format!("{id}:{}", f.v.clause),
-                message: format!("{} [family {}, {} deviation(s)]", f.v.msg, st.name, f.deviations),
+                message: format!("{} [family {}, {} deviation(s)]{note}", f.v.msg, st.name, f.deviations),
                 case,
                 choices: f.choices.clone(),
                 deviations: f.deviations,
